@@ -178,6 +178,18 @@ where
             .ok_or_else(|| StorageError::FolderNotFound(*folder_id))?;
         folder.force_merge(&diff).await?;
 
+        // The folder content was replaced so the documents
+        // in the search index for this folder are stale
+        #[cfg(feature = "search")]
+        {
+            let access_point = folder.access_point();
+            if let Some(index) = self.0.search_index() {
+                let access_point = access_point.lock().await;
+                index.remove_folder(folder_id).await;
+                index.add_folder(&access_point).await?;
+            }
+        }
+
         outcome.changes += len;
         outcome.tracked.add_tracked_folder_changes(
             folder_id,
